@@ -214,6 +214,72 @@ def agg_shard(arg):
   return n, len(ok), bad
 
 
+def agg_longlived(arg):
+  """One long-lived aggregated router while the rules file is rewritten, removed and restored (the
+  RuleManager's periodic read_rules() tick is called by hand): routing must follow the rules in force."""
+  sequence, cls, maxlen = arg
+  env.boot()
+  from carbon.routers import DatapointRouter
+  from carbon.aggregator.rules import RuleManager
+  from carbon.conf import settings as real
+  from twisted.internet.task import Clock
+  path = os.path.join(env.scratch(), 'aggregation-rules-ll-%d.conf' % os.getpid())
+  names = [''.join(t) for k in range(1, maxlen + 1) for t in itertools.product(AGG_ALPHABET, repeat=k)]
+  tick = [2100000000.0]
+
+  def write(rules):
+    if rules is None:
+      if os.path.exists(path):
+        os.unlink(path)
+      return
+    with open(path, 'w') as f:
+      for out, inp, method in rules:
+        f.write('%s (10) = %s %s\n' % (out, method, inp))
+    tick[0] += 7.5
+    os.utime(path, ns=(int(tick[0] * 1e9), int(tick[0] * 1e9)))
+  if RuleManager.read_task.running:
+    RuleManager.read_task.stop()
+  RuleManager.read_task.clock = Clock()
+  RuleManager.rules_last_read = 0.0
+  write(sequence[0])
+  s = S(real)
+  s['REPLICATION_FACTOR'] = 1
+  s['DIVERSE_REPLICAS'] = False
+  s['ROUTER_HASH_TYPE'] = 'carbon_ch'
+  s['aggregation-rules'] = path
+  router = DatapointRouter.plugins[cls](s)
+  plain = DatapointRouter.plugins['consistent-hashing' if cls.startswith('agg') else 'fast-hashing'](S(s))
+  for d in AGG_DESTS:
+    router.addDestination(d)
+    plain.addDestination(d)
+  n = 0
+  okc = 0
+  bad = []
+  for step, rules in enumerate(sequence):
+    if step:
+      write(rules)
+      RuleManager.read_rules()          # the 10 s re-read tick
+    for name in names:
+      n += 1
+      aggs = [a for a in (aggrules.aggregate_name(inp, out, name) for out, inp, m in (rules or [])) if a is not None]
+      want = set()
+      for a in (aggs or [name]):
+        want |= set(plain.getDestinations(a))
+      got = set(router.getDestinations(name))
+      if got != want:
+        if len(bad) < 3:
+          bad.append(('aggregated-routing:after-rules-change', '%s (long-lived router, step %d of %r): metric %r routed to %r; the rules in '
+                      'force map it to aggregates %r whose hash destinations are %r' % (cls, step, sequence, name, sorted(got), aggs, sorted(want)),
+                      {'sequence': sequence, 'metric': name, 'cls': cls, 'step': step}))
+      elif aggs or step:
+        okc += 1
+  if RuleManager.read_task.running:
+    RuleManager.read_task.stop()
+  RuleManager.rules = []
+  write(None)
+  return n, okc, bad
+
+
 def run(ctx):
   env.boot()
   files = core.seeded_order(relay_files(ctx), ctx.seed)
@@ -240,7 +306,21 @@ def run(ctx):
     d2 += okc
     for key, what, rep in bad:
       ctx.violation(key, what, rep)
-  ctx.add(evaluations=n + n2, distinct_nontrivial=d + d2, exhaustive=True, relay_rule_files=len(files),
+  seqs = []
+  for a in AGG_RULES:
+    for b in AGG_RULES:
+      if a is not b:
+        seqs.append([[a], [b], None, [a]])           # rewrite, remove, restore
+        seqs.append([[a], None, [a, b], [b]])
+  if not ctx.thorough:
+    seqs = seqs[::4]
+  lres = core.pmap(agg_longlived, [(sq, cls, 4) for sq in seqs for cls in ('aggregated-consistent-hashing', 'fast-aggregated-hashing')], chunksize=2)
+  for cnt, okc, bad in lres:
+    n2 += cnt
+    d2 += okc
+    for key, what, rep in bad:
+      ctx.violation(key, what, rep)
+  ctx.add(evaluations=n + n2, distinct_nontrivial=d + d2, exhaustive=True, long_lived_router_sequences=len(seqs), relay_rule_files=len(files),
           configured_subsets=len(subsets), aggregation_rule_sets=len(rulesets),
           rule='relay-rules: generated files x configured subsets x 7 names; aggregation-aware: rule sets x 2 router classes x '
                '2..4 destinations x RF 1,2 x all names over "abx." up to length %d; distinct_nontrivial = distinct passing cases '
@@ -255,7 +335,10 @@ def run(ctx):
 def replay(path):
   body = json.load(open(path))
   rep = body['replay']
-  if 'sections' in rep:
+  if 'sequence' in rep:
+    seq = [None if r is None else [tuple(x) for x in r] for r in rep['sequence']]
+    n, ok, bad = agg_longlived((seq, rep['cls'], 4))
+  elif 'sections' in rep:
     n, ok, bad = relay_shard(([rep['sections']], [tuple(rep['configured'])]))
   else:
     n, ok, bad = agg_shard(([[tuple(r) for r in rep['rules']]], 6))
